@@ -112,7 +112,7 @@ theorem pyFloat_intStr (n : Int) : pyFloat (intStr n) = some (.fin (n : ℚ)) :=
 theorem rawConv_tags (cfg : Cfg) (l : List Str) : rawConv cfg .tag (.tags l) = some (.strs l) := by
   simp [rawConv, convertVal, invalidItem, binaryKeys, isZeroOne, PyVal.num?, pure, Except.pure, bind, Except.bind]
 
-/-- a label that does not look like a number (or any label once F25 is repaired) stays a string. -/
+/-- a label that does not look like a number (or any label once F50 is repaired) stays a string. -/
 def TextPlain (cfg : Cfg) (u : Str) : Prop := cfg.textVerbatim = true ∨ pyFloat u = none
 instance (cfg : Cfg) (u : Str) : Decidable (TextPlain cfg u) := by unfold TextPlain; infer_instance
 
